@@ -19,7 +19,7 @@ namespace PsbtOps
 def b (s : String) : Bytes := s.toUTF8.toList
 def str (bs : Bytes) : String := String.ofList (bs.map fun x => Char.ofNat x.toNat)
 
-def nKeys : Nat := 12
+def nKeys : Nat := 18
 def nHashes : Nat := 16
 def nLeaves : Nat := 16
 
@@ -106,7 +106,10 @@ def updateData (i : Nat) (s : InSetup) : UpdateData :=
 
 /-- canonical description of the satisfaction-relevant contents of an input (same format as
 the harness' `field_sig`) — a function of the field MAPS only -/
-def fieldSig (s : InSetup) (inp : Input) : String :=
+def hasOrigins (inp : Input) : Bool :=
+  ((List.range nKeys).any fun k => (inp.bip32 k).isSome) || ((List.range nKeys).any fun k => (inp.tapKeyOrigins k).isSome)
+
+def fieldSig (s : InSetup) (p : Psbt) (inp : Input) : String :=
   let sigTok := (List.range nKeys).filterMap fun k =>
     let v : Option Sig :=
       if s.kind == .tr then
@@ -116,7 +119,10 @@ def fieldSig (s : InSetup) (inp : Input) : String :=
   let preTok := (List.range nHashes).filterMap fun j =>
     (inp.preimages j).map fun g => (if g == 0 then "p" else "q") ++ toString j
   let u := if s.kind == .tr && (List.range nLeaves).any (fun li => (inp.tapScripts li).isSome) then ["u"] else []
-  let all := sigTok ++ preTok ++ u
+  let l := if (List.range nLeaves).any (fun li => inp.tapScripts li == some (b "nonstd")) then ["L"] else []
+  -- which inputs record key origins (raw key hashes are resolved through them, across inputs)
+  let o := p.inputs.zipIdx.filterMap fun (other, j) => if hasOrigins other then some s!"O{j}" else none
+  let all := sigTok ++ preTok ++ u ++ l ++ o
   if all.isEmpty then "-" else "+".intercalate all
 
 def tokBytes (t : String) : Bytes := if t == "e" then [] else b t
@@ -132,7 +138,7 @@ abbrev OracleT := List (String × String)
 def satLookup (o : OracleT) (setup : List InSetup) (p : Psbt) (i : Nat) (mall : Bool) : Option (Wit × SS) :=
   match setup[i]?, p.inputs[i]? with
   | some s, some inp =>
-    match o.lookup s!"S{i}.{if mall then 1 else 0}.{fieldSig s inp}" with
+    match o.lookup s!"S{i}.{if mall then 1 else 0}.{fieldSig s p inp}" with
     | some v =>
       match v.splitOn "/" with
       | [sst, wt] => some (witOfTok wt, tokBytes sst)
@@ -152,7 +158,11 @@ def mkParams (o : OracleT) (setup : List InSetup) : Params where
   satisfy _ p i mall := satLookup o setup p i mall
   tapScriptWitness p i mall := (satLookup o setup p i mall).map (·.1)
   sigBytes i sig := b ((o.lookup s!"K{i}.{if sig == 0 then "g" else "b"}").getD "?")
-  interp _ i _ _ wit ss := o.lookup s!"I{i}.{ssTok ss}/{witTok wit}" == some "ok"
+  -- the referenced outputs as the finalizer sees them: `o` the output really spent, `x` a
+  -- disagreeing witness_utxo
+  interp _ i utxos _ wit ss :=
+    let view := String.ofList (utxos.zipIdx.map fun (u, j) => if u.value == 1000 + j then 'o' else 'x')
+    o.lookup s!"I{i}.{view}.{ssTok ss}/{witTok wit}" == some "ok"
   -- `sanity_check`: the input's sighash_type field (SINGLE when set by the `h` op) against the
   -- sighash byte of every partial signature (ALL for every signature of the histories)
   sanityInput inp := inp.sighashType.isNone || !((List.range nKeys).any fun k => (inp.partialSigs k).isSome)
@@ -243,6 +253,27 @@ def stepOp (P : Params) (setup : List InSetup) (o : OracleT) (p : Psbt) (tok : S
     pure (modify p i fun inp => { inp with sighashType := if inp.sighashType.isSome then none else some 3 }, "ok")
   | 'o' =>
     pure (modify p i fun inp => { inp with bip32 := fun _ => none, tapKeyOrigins := fun _ => none }, "ok")
+  | 'k' =>
+    -- a previous transaction with ANOTHER txid whose output `vout` is nevertheless the right one
+    let s ← s?
+    pure (modify p i fun inp => { inp with witnessUtxo := none, nonWitnessUtxo := some ⟨999 + i, [utxoOf i s]⟩ }, "ok")
+  | 'e' =>
+    -- witness_utxo and non_witness_utxo disagree (other value)
+    let s ← s?
+    pure (modify p i fun inp => { inp with witnessUtxo := some ⟨spkOf i s, 2000 + i⟩, nonWitnessUtxo := some (prevOf i s) }, "ok")
+  | 'w' =>
+    let s ← s?
+    pure (modify p i fun inp => { inp with witnessUtxo := some (utxoOf i s), nonWitnessUtxo := none }, "ok")
+  | 'z' =>
+    -- a script field the output type must not have / a wrong redeem script on sh-wsh
+    let s ← s?
+    let bad : Scr := b s!"bad{i}"
+    match s.kind with
+    | .wsh | .shwsh => pure (modify p i fun inp => { inp with redeemScript := some bad }, "ok")
+    | .sh => pure (modify p i fun inp => { inp with witnessScript := some bad }, "ok")
+    | _ => pure (p, "ok")
+  | 'l' =>
+    pure (modify p i fun inp => { inp with tapScripts := fun cb => (inp.tapScripts cb).map fun _ => b "nonstd" }, "ok")
   | 'v' =>
     pure (modify p i fun inp => { inp with witnessUtxo := none, nonWitnessUtxo := some ⟨100 + i, []⟩ }, "ok")
   | 'r' =>
@@ -296,7 +327,7 @@ def harnessJudges : List String :=
   ["idempotent", "final-untouched", "atomic", "order-independent", "update-consistent",
    "update-mismatch-refused", "update-output-consistent", "sighash-agrees", "mall-honoured",
    "extract-same-tx", "mode-honoured", "sighash-type-finalizes", "sighash-type-extracts",
-   "rawpkh-finalizes"]
+   "rawpkh-finalizes", "update-atomic", "byvalue-agrees", "update-unchecked-agrees"]
 
 def opsPsbtCore (kind op : String) (args : List String) : Option String :=
   match kind, op, args with
